@@ -247,15 +247,19 @@ def get_model(
         assoc = getattr(lang_classes_factory.ns, assoc_name)()
         setattr(assoc, left_field, [left_asset])
         setattr(assoc, right_field, [right_asset])
-        if not (instance_model.association_exists_between_assets(
+        # Every link is seen from both of its ends. Order the two assets by
+        # the fields of the association class before checking if the link
+        # was already added, a link in the opposite direction is another one.
+        first_field, _ = instance_model.get_association_field_names(assoc)
+        if left_field == first_field:
+            first_asset, second_asset = left_asset, right_asset
+        else:
+            first_asset, second_asset = right_asset, left_asset
+        if not instance_model.association_exists_between_assets(
             assoc_name,
-            left_asset,
-            right_asset
-        ) or instance_model.association_exists_between_assets(
-            assoc_name,
-            right_asset,
-            left_asset
-        )):
+            first_asset,
+            second_asset
+        ):
             instance_model.add_association(assoc)
 
     return instance_model
